@@ -18,7 +18,7 @@ From Verif Require Import Base.Prelude Gen.Constants Model.Dump Proofs.Dump.
 Open Scope N_scope.
 
 (** Dump, then load into an empty cache: no error; exactly the items that were
-    not expired at the dump and (to the second) at the load are admitted, in
+    not expired at the dump and (to the second) at the load are stored, in
     order, each with its key, its message and its stored / message-expiry /
     cache-expiry times cut to whole seconds ([reload_item]); the entry count
     reported is the number of entries dumped. Premise [Hfit]: every dumped
@@ -86,8 +86,8 @@ Proof. exact (serve_after_reload M unpack unmarshal gunzip pack marshal esz gz l
 Print Assumptions c19_served_after_reload.
 
 (** Every truncated copy [z] (any strict prefix = any crash point of the
-    periodic dump) of a dump reports an error, and the items it admits are a
-    prefix of — in particular a subset of — what the intact dump admits. No
+    periodic dump) of a dump reports an error, and the items it stores are a
+    prefix of — in particular a subset of — what the intact dump stores. No
     premise on sizes or on the other libraries: only the gzip contracts. *)
 Theorem c19_truncated_reports_error_and_prefix
   (M : Type) (pack : M -> option bytes) (unpack : bytes -> option M)
@@ -136,7 +136,7 @@ Print Assumptions c19_unclean_is_error.
 
 (** An announced block length above dumpMaximumBlockLength is refused by the
     check that precedes the buffer allocation: the result does not depend on
-    anything after the 8 header bytes, nothing is admitted. *)
+    anything after the 8 header bytes, nothing is stored. *)
 Theorem c19_block_len_limit
   (M : Type) (unpack : bytes -> option M) (unmarshal : bytes -> option (list entry))
   (now : Z) (h rest : bytes) (clean : bool) :
@@ -201,9 +201,9 @@ Print Assumptions c19_count_only_grouping_refuted.
     as the concatenation of (key length, key, message, three times) — enough to
     satisfy the contracts on these values; gzip is "name length ++ name ++
     plaintext". Three items: one expired at the dump, one stored at x.7 s, one
-    at an exact second. The dump succeeds, reloading admits exactly the two live
+    at an exact second. The dump succeeds, reloading stores exactly the two live
     ones with times cut to the second, and a copy cut inside the second entry
-    reports an error and admits nothing foreign. *)
+    reports an error and stores nothing foreign. *)
 Definition ex_pack (m : N) : option bytes := Some [m].
 Definition ex_unpack (b : bytes) : option N := match b with [m] => Some m | _ => None end.
 Definition ex_marshal (b : list entry) : bytes :=
